@@ -42,6 +42,8 @@ structure Codecs (V P : Type) where
   boolFalse : V
   /-- what the setter stores; may raise -/
   norm : Norm → V → Except Err V
+  /-- `isl.get_type() == InterfaceType.DedicatedPort` -/
+  isDedicated : V → Bool
 
 section generic
 variable {V P : Type}
@@ -235,6 +237,115 @@ end
 
 end tree
 
+/-! ### the model-graph path: `add_*_sliver` then `build_deep_*_sliver` on a property graph -/
+
+structure GNode (P : Type) where
+  id : String
+  cls : String
+  props : Props P
+
+/-- nodes in insertion order, relationships as (a, rel, b) -/
+structure AGraph (P : Type) where
+  nodes : List (GNode P)
+  edges : List (String × String × String)
+
+def AGraph.empty {P : Type} : AGraph P := ⟨[], []⟩
+
+def classOf (k : Kind) : String :=
+  if k = "node" then "NetworkNode" else if k = "component" then "Component" else if k = "service" then "NetworkService"
+  else if k = "interface" then "ConnectionPoint" else if k = "link" then "Link" else ""
+
+/-- `REL_HAS` for components and services, `REL_CONNECTS` for interfaces -/
+def relOf (child : Kind) : String := if child = "interface" then "connects" else "has"
+
+section graph
+variable {V P : Type}
+
+/-- `add_node` (rejects an existing node of the same id *and* class) followed by `add_link` to the parent -/
+def addNode (g : AGraph P) (parent : Option String) (id cls rel : String) (props : Props P) : Except Err (AGraph P) :=
+  if g.nodes.any (fun n => n.id == id && n.cls == cls) then .error "query"
+  else .ok ⟨g.nodes ++ [⟨id, cls, props⟩], match parent with | some p => g.edges ++ [(p, rel, id)] | none => g.edges⟩
+
+mutual
+/-- `add_network_node_sliver` / `add_component_sliver` / `add_network_service_sliver` / `add_interface_sliver` -/
+def addSliver (C : Codecs V P) (g : AGraph P) (parent : Option String) : Sliver V → Except Err (AGraph P)
+  | .mk k nid f ks =>
+    match nid with
+    | none => .error "assertion"
+    | some id =>
+      match addNode g parent id (classOf k) (relOf k) (toProps C (tableOf k) f) with
+      | .error e => .error e
+      | .ok g' => addKids C g' id k ks
+def addKids (C : Codecs V P) (g : AGraph P) (parentId : String) (parentKind : Kind) : List (Sliver V) → Except Err (AGraph P)
+  | [] => .ok g
+  | c :: cs =>
+    match slotOf parentKind c.kind with
+    | none => addKids C g parentId parentKind cs
+    | some _ =>
+      match addSliver C g (some parentId) c with
+      | .error e => .error e
+      | .ok g' => addKids C g' parentId parentKind cs
+end
+
+/-- `_find_node` -/
+def findNode (g : AGraph P) (id : String) : Except Err (GNode P) :=
+  match g.nodes.filter (fun n => n.id == id) with
+  | [n] => .ok n
+  | _ => .error "query"
+
+/-- `get_first_neighbor(node_id, rel, label)`: ids, in no particular order -/
+def neighbors (g : AGraph P) (id rel cls : String) : List String :=
+  let ids := (g.edges.filterMap fun e =>
+    if e.2.1 == rel then (if e.1 == id then some e.2.2 else if e.2.2 == id then some e.1 else none) else none).eraseDups
+  ids.filter fun i => g.nodes.any (fun n => n.id == i && n.cls == cls)
+
+/-- `build_deep_<kind>_sliver` with a recursion bound (the graph written by `addSliver` is a tree) -/
+def buildDeep [DecidableEq V] (C : Codecs V P) (g : AGraph P) : Nat → Kind → String → Except Err (Sliver V)
+  | 0, _, _ => .error "fuel"
+  | fuel + 1, k, id =>
+    match findNode g id with
+    | .error e => .error e
+    | .ok n =>
+      if n.cls != classOf k && !(k == "node" && n.cls == "CompositeNode") then .error "query" else
+      match fromProps C (tableOf k) n.props with
+      | .error e => .error e
+      | .ok f =>
+        if k == "interface" then
+          -- sub-interfaces only below a DedicatedPort, and built flat
+          if (f "type").any C.isDedicated then
+            let kids := (neighbors g id "connects" "ConnectionPoint").mapM fun i =>
+              match findNode g i with
+              | .error e => .error e
+              | .ok m => (fromProps C (tableOf "interface") m.props).map fun fi => Sliver.mk "interface" (some i) fi []
+            match kids with
+            | .error e => .error e
+            | .ok cs => .ok (.mk k (some id) f (dedupe cs))
+          else .ok (.mk k (some id) f [])
+        else
+          let kids := (slotsOf k).foldl (fun acc sc =>
+            match acc with
+            | .error e => .error e
+            | .ok cs =>
+              match (neighbors g id (relOf sc.2) (classOf sc.2)).mapM (fun i => buildDeep C g fuel sc.2 i) with
+              | .error e => .error e
+              | .ok ds => if ds.all childOk then .ok (cs ++ ds) else .error "assertion") (.ok [])
+          match kids with
+          | .error e => .error e
+          | .ok cs => .ok (.mk k (some id) f (dedupe cs))
+
+/-- the whole path on a fresh graph (`component`: under a bare parent node, as the harness does) -/
+def graphRoundtrip [DecidableEq V] (C : Codecs V P) (s : Sliver V) : Except Err (Sliver V) :=
+  let g0 : Except Err (AGraph P) :=
+    if s.kind = "component" then addNode AGraph.empty none "c02-parent" "NetworkNode" "has" Props.empty else .ok AGraph.empty
+  match g0 with
+  | .error e => .error e
+  | .ok g =>
+    match addSliver C g (if s.kind = "component" then some "c02-parent" else none) s with
+    | .error e => .error e
+    | .ok g' => buildDeep C g' (g'.nodes.length + 1) s.kind ((s.nodeId).getD "")
+
+end graph
+
 /-! ### concrete values for the driver -/
 
 inductive Val where
@@ -341,6 +452,7 @@ def concrete : Codecs Val String where
     | .tuple, v => .ok v
     | .ipAddress, .str s => .ok (.ip s)
     | .ipAddress, v => .ok v
+  isDedicated := fun v => v == .enum "InterfaceType" "DedicatedPort"
 
 /-- `BaseSliver.__init__`: everything None except `stitch_node = False` -/
 def freshFields : Fields Val := Fields.empty.set "stitch_node" (some (.bool false))
